@@ -27,7 +27,7 @@ class Node:
 
 
 class Edge:
-    __slots__ = ("src", "dst", "kind", "test", "polarity")
+    __slots__ = ("src", "dst", "kind", "test", "polarity", "alt")
 
     def __init__(self, src, dst, kind, test=None, polarity=None):
         self.src = src
@@ -35,6 +35,11 @@ class Edge:
         self.kind = kind          # next | true | false | exc | jump
         self.test = test          # ast expr for branch edges
         self.polarity = polarity  # True / False for branch edges
+        self.alt = None           # the same test with explaining variables replaced by their defining expressions (None if nothing to replace)
+
+    def tests(self):
+        """the spellings of this branch's condition: as written, and with single-assignment locals seen through"""
+        return [t for t in (self.test, self.alt) if t is not None]
 
     def __repr__(self):
         return "<E %r -%s-> %r>" % (self.src, self.kind, self.dst)
@@ -126,6 +131,72 @@ class CFG:
         fr = self._seq(body, [(self.entry, "next", None, None)], [], "")
         self._connect(fr, self.exit)
         self._dom = None
+        self._see_through_explaining_variables()
+
+    def _see_through_explaining_variables(self):
+        """`t = <expr>` ... `if t:` is the same decision as `if <expr>:`. For every branch edge whose test mentions, at an atom position, a local that is assigned exactly
+        once in the function (plain `name = expr`, nothing else stores it) by a statement that dominates the branch, the edge's test is replaced by the test with the
+        defining expression in place of the name. (The node keeps its AST; only what the guard queries read changes.)"""
+        fn = self.fn_node
+        if isinstance(fn, ast.Lambda):
+            return
+        params = {a.arg for a in fn.args.posonlyargs + fn.args.args + fn.args.kwonlyargs}
+        if fn.args.vararg:
+            params.add(fn.args.vararg.arg)
+        if fn.args.kwarg:
+            params.add(fn.args.kwarg.arg)
+        plain, other = {}, set()
+        for n in walk_no_nested(fn):
+            if isinstance(n, ast.Assign) and len(n.targets) == 1 and isinstance(n.targets[0], ast.Name):
+                plain.setdefault(n.targets[0].id, []).append(n)
+            elif isinstance(n, ast.Name) and isinstance(n.ctx, (ast.Store, ast.Del)):
+                par = getattr(n, "_parent", None)
+                if not (isinstance(par, ast.Assign) and len(par.targets) == 1 and par.targets[0] is n):
+                    other.add(n.id)
+            elif isinstance(n, ast.ExceptHandler) and n.name:
+                other.add(n.name)
+            elif isinstance(n, (ast.Global, ast.Nonlocal)):
+                other.update(n.names)
+        single = {k: v[0] for k, v in plain.items() if len(v) == 1 and k not in other and k not in params
+                  and not any(isinstance(x, (ast.NamedExpr, ast.Yield, ast.YieldFrom, ast.Await)) for x in ast.walk(v[0].value))}
+        if not single:
+            return
+
+        def subst(test, src, depth=0):
+            if depth > 3:
+                return test
+            if isinstance(test, ast.Name) and test.id in single:
+                a = single[test.id]
+                an = self.by_ast.get(id(a), [])
+                if an and all(self.dominates(x, src) for x in an[:1]):
+                    return subst(a.value, src, depth + 1)
+                return test
+            if isinstance(test, ast.UnaryOp) and isinstance(test.op, ast.Not):
+                inner = subst(test.operand, src, depth)
+                if inner is not test.operand:
+                    new = ast.UnaryOp(op=ast.Not(), operand=inner)
+                    ast.copy_location(new, test)
+                    new._parent = getattr(test, "_parent", None)
+                    return new
+                return test
+            if isinstance(test, ast.BoolOp):
+                vals = [subst(v, src, depth) for v in test.values]
+                if any(a is not b for a, b in zip(vals, test.values)):
+                    new = ast.BoolOp(op=test.op, values=vals)
+                    ast.copy_location(new, test)
+                    new._parent = getattr(test, "_parent", None)
+                    return new
+            return test
+        cache = {}
+        for n in self.nodes:
+            for e in n.succ:
+                if e.test is None:
+                    continue
+                key = (id(e.test), n.id)
+                if key not in cache:
+                    cache[key] = subst(e.test, n)
+                if cache[key] is not e.test:
+                    e.alt = cache[key]
 
     # ------------------------------------------------------------------ construction
     def _new(self, kind, astnode, tag):
